@@ -563,7 +563,7 @@ fn mixed_cfg(focus: &str, seed: u64, index: u64, clean: bool) -> MixedCfg {
         if clean_weights { rng.range(60, 300) as i64 } else { match weight_mode { WeightMode::Default => rng.range(120, 500) as i64, WeightMode::Custom => rng.range(30, 150) as i64 } }
     } else { 1_000_000 };
     let sut = SutCfg {
-        counters: *rng.pick(&[2u64, 10, 100, 1000]),
+        counters: *rng.pick(&[1u64, 2, 10, 100, 1000]),
         capacity: *rng.pick(&[1usize, 16, 64]),
         max_weight,
         shards: *rng.pick(&[2usize, 2, 2, 4, 16]),
